@@ -19,7 +19,7 @@ ID = "C11"
 LEVEL = "fault_enumeration"
 RULE = ("fault = the initiating process disappears. Generated cases: topology (popen, popen//python=, popen//via=, socket//installvia) x "
         "worker execmodel (thread, main_thread_only, gevent) x worker activity (idle, blocked in receive, busy loop, sleep, loop swallowing "
-        "KeyboardInterrupt, SIGINT ignored, daemon threads, flooding a channel, big transfer in flight) x removal (SIGKILL, SIGTERM, os._exit, "
+        "KeyboardInterrupt, SIGINT ignored, daemon threads, flooding a channel, big transfer in flight, ENDMARKER callback raising) x inherited stderr (file, pipe whose reader is gone, fd 2 closed) x removal (SIGKILL, SIGTERM, os._exit, "
         "normal exit, connection closed only, SIGKILL at a random moment during bootstrap); every process carrying the case's VERIF_TAG must "
         "have left /proc within 15 s + 10 s slack of the removal. distinct = distinct (topology, execmodel, activity, removal) cases")
 ASSUMPTIONS = [
@@ -67,6 +67,8 @@ def gen_case(rng, idx):
     action = {"sigkill": "wait_killed", "sigterm": "wait_killed", "during_bootstrap": "wait_killed"}.get(removal, removal)
     return {"gateways": gws, "action": action, "removal": removal, "topo": topo, "model": model, "activity": act,
             "worker_noise": rng.random() < 0.4,
+            # what the workers inherit as fd 2: a file; a pipe whose reader goes away with the initiator; nothing (fd 2 closed)
+            "stderr": rng.choice(("file", "file", "file", "pipe_reader_gone", "closed")),
             "boot_delay": rng.choice((0.0, 0.02, 0.05, 0.1, 0.15, 0.25, 0.4))}
 
 
@@ -80,8 +82,38 @@ def run_case(case, out):
     extra = {"VERIF_TAG": tag}
     if case.get("worker_noise"):
         extra["EXECNET_VERIF"] = "noise:%d:0.02:5" % (hash(tag) & 0xFFFF)
+    mode = case.get("stderr", "file")
+    err_r = None
+    kw: dict = {"stderr": errf}
+    if mode == "pipe_reader_gone":
+        err_r, err_w = os.pipe()
+        kw = {"stderr": err_w}
+    elif mode == "closed":
+        kw = {"stderr": None, "preexec_fn": _close_fd2}
     p = subprocess.Popen([core.PY, "-m", "vlib.initiator", cf], cwd=core.VERIF, env=core.child_env(extra),
-                         stdout=subprocess.PIPE, stderr=errf, stdin=subprocess.DEVNULL, start_new_session=True)
+                         stdout=subprocess.PIPE, stdin=subprocess.DEVNULL, start_new_session=True, **kw)
+    if err_r is not None:
+        os.close(err_w)
+        gone = threading.Event()
+
+        def drain():
+            # the supervising process reading the initiator's stderr: it goes away together with the initiator
+            import select
+
+            while not gone.is_set():
+                if select.select([err_r], [], [], 0.05)[0]:
+                    try:
+                        data = os.read(err_r, 65536)
+                    except OSError:
+                        break
+                    if not data:
+                        break
+                    errf.write(data)
+                    errf.flush()
+            os.close(err_r)
+
+        dt_ = threading.Thread(target=drain, daemon=True)
+        dt_.start()
     events = []
     ready = threading.Event()
     closed = threading.Event()
@@ -129,6 +161,9 @@ def run_case(case, out):
                     result["harness_error"] = "initiator did not exit by itself"
                     return
                 t0 = time.monotonic()
+        if err_r is not None:
+            gone.set()
+            dt_.join(2)
         result["workers_at_removal"] = [x for x in procs.tagged_pids(tag) if x != p.pid]
         # observe
         keep = {p.pid} if removal == "close_connection" else set()
@@ -148,6 +183,8 @@ def run_case(case, out):
     finally:
         out.append(result)
         procs.kill_all(tag)
+        if err_r is not None:
+            gone.set()
         try:
             p.kill()
         except OSError:
@@ -156,6 +193,10 @@ def run_case(case, out):
         import shutil
 
         shutil.rmtree(d, ignore_errors=True)
+
+
+def _close_fd2():
+    os.close(2)
 
 
 def _tail(path, n=400):
@@ -245,6 +286,8 @@ def run_shard(spec):
     if spec["shard"] == 0:
         cases[0].update(gen_fixed("popen", "thread", "sigint_ignored", "sigkill"))
         cases[1].update(gen_fixed("popen", "main_thread_only", "swallow_kbi", "os_exit"))
+        cases[2].update(gen_fixed("popen", "thread", "swallow_kbi", "sigkill", stderr="pipe_reader_gone"))
+        cases[3].update(gen_fixed("python", "thread", "sigint_ignored", "sigkill", stderr="closed"))
     if spec["shard"] == 2:
         cases[0].update(gen_fixed("popen", "thread", "endmarker_raises", "sigkill"))
         cases[1].update(gen_fixed("python", "main_thread_only", "endmarker_raises", "os_exit"))
@@ -272,6 +315,9 @@ def run_shard(spec):
     for r in out:
         c = r["case"]
         key = f"{c['topo']}/{c['model']}/{c['activity']}/{c['removal']}"
+        if c.get("stderr", "file") != "file":
+            key += "/stderr=" + c["stderr"]
+            res.count("cases_stderr_" + c["stderr"])
         if "harness_error" in r:
             res.inconclusive.append(f"{key}: {r['harness_error']}")
             continue
@@ -293,7 +339,7 @@ def run_shard(spec):
     return res
 
 
-def gen_fixed(topo, model, act, removal):
+def gen_fixed(topo, model, act, removal, stderr="file"):
     action = {"sigkill": "wait_killed", "sigterm": "wait_killed", "during_bootstrap": "wait_killed"}.get(removal, removal)
     return {"gateways": [{"spec": topo, "id": "w", "execmodel": model, "activity": act}], "action": action, "removal": removal,
-            "topo": topo, "model": model, "activity": act}
+            "topo": topo, "model": model, "activity": act, "stderr": stderr}
